@@ -4,6 +4,7 @@
 -/
 import JoinModel.Props.Common
 import JoinModel.AsyncSpec
+import JoinModel.Concrete
 namespace JoinModel.Props.C18
 open JoinModel JoinModel.Props
 
@@ -170,5 +171,20 @@ theorem async_chain_panic_every_schedule (c : SpecCfg) (pend : Pend) (rem k : Na
     | panic m =>
       refine ⟨m, by rw [h2]; rfl, ?_⟩
       simpa [List.map_map] using h4
+
+/-- the hypotheses are satisfiable: `join_async! { a, b ~|> f }` in a world where the first branch's initial expression
+    panics — in step 0 the captures succeed and chain (0, 0) panics -/
+example :
+    let d : WorldDesc := { chains := [((0, 0), [⟨.init, 1, .panic 1, 0⟩]), ((1, 0), [⟨.init, 2, .ok 1, 0⟩])] }
+    let ini : Member := ⟨.initial, false, .none, [⟨.expr, []⟩]⟩
+    let c : SpecCfg := ⟨mkWorld d, ⟨true, false, false⟩, [none, none], none,
+      [[[ini]], [[ini], [⟨.map, true, .none, [⟨.expr, []⟩]⟩]]]⟩
+    c.kind.isTry = false ∧
+    (specCapsAll c 0 (visibleSpec c.names [none, none]) (c.active 0)).res = .ok [[], []] ∧
+    ((0, []) : Nat × List Value) ∈ (c.active 0).zip [[], []] ∧
+    (taskOf c (fun _ _ _ _ _ => []) 0 [none, none] (visibleSpec c.names [none, none]) (0, [])).out = .panic 1 := by
+  intro d ini c
+  refine ⟨rfl, rfl, ?_, rfl⟩
+  decide
 
 end JoinModel.Props.C18
